@@ -1,5 +1,5 @@
 """C11 — a query on one SQL integration is pushed down whole and unchanged in meaning."""
-import copy, sqlite3
+import copy, json, re, sqlite3
 from hypothesis import strategies as st
 
 from vf import findings, hyp
@@ -116,6 +116,22 @@ def prepare(tier):
     import mindsdb_sql.planner  # noqa
 
 
+_INT = ['int1']          # name of the integration in the statement that is planned (see `rename`)
+OTHER_NAMES = ['reviews', 'profiles', 'pg_views', 'myfiles', 'files2', 'views_db', 'information', 'mindsdb2', 'log', 'x']
+
+
+def rename(text, name):
+    """the statement with the integration int1 called `name` (same letter-case style at every occurrence)"""
+    def sub(m):
+        w = m.group(0)
+        return name.upper() if w.isupper() else name.capitalize() if w[0].isupper() else name
+    return re.sub(r'\bint1\b', sub, text, flags=re.I)
+
+
+def rename_catalog(kw, name):
+    return json.loads(json.dumps(kw).replace('"int1"', json.dumps(name)))
+
+
 def allowed_edit_diff(a, b, path, out, in_targets=False):
     """Compare original tree node a with pushed node b; record differences other than the two allowed edits."""
     from mindsdb_sql.parser.ast.base import ASTNode
@@ -127,7 +143,7 @@ def allowed_edit_diff(a, b, path, out, in_targets=False):
         for k in sorted(set(va) | set(vb)):
             x, y = va.get(k), vb.get(k)
             if type(a).__name__ == 'Identifier' and k == 'parts':
-                if x != y and not (len(x) > 1 and isinstance(x[0], str) and x[0].lower() == 'int1'
+                if x != y and not (len(x) > 1 and isinstance(x[0], str) and x[0].lower() == _INT[0]
                                    and struct(x[1:]) == struct(y)):
                     out.append(f'{path}.parts: {x} -> {y}')
                 continue
@@ -167,6 +183,16 @@ def judge(case, col):
         except sqlite3.Error as e:
             col.excluded('ground truth not executable: ' + str(e)[:50])
             return []
+    # what is planned: the same statement with the integration called differently (names that contain the names of
+    #  MindsDB's pseudo-databases, ...); the ground truth above does not depend on that name
+    iname = case.get('integration') or 'int1'
+    _INT[0] = iname
+    kw = CATALOGS[cat]
+    if iname != 'int1':
+        sql = rename(sql, iname)
+        kw = rename_catalog(kw, iname)
+        cfg['integration'] = iname
+        classes.append('integration:renamed')
     try:
         tree = parse_sql(sql, 'mindsdb')
     except Exception as e:
@@ -175,7 +201,7 @@ def judge(case, col):
     orig = copy.deepcopy(tree)
     out = []
     try:
-        plan = plan_query(tree, **CATALOGS[cat])
+        plan = plan_query(tree, **copy.deepcopy(kw))
     except (PlanningException, NotImplementedError) as e:
         out.append(findings.record('planning-refused', type(e).__name__, tags, cfg, str(e)[:200], sql))
         col.case((cat, sql), False, classes + ['refused'])
@@ -184,7 +210,7 @@ def judge(case, col):
         col.excluded('planner internal error (C09): ' + site_of(e))
         return []
     steps = plan.steps
-    if not (len(steps) == 1 and isinstance(steps[0], FetchDataframeStep) and steps[0].integration == 'int1'
+    if not (len(steps) == 1 and isinstance(steps[0], FetchDataframeStep) and steps[0].integration == iname
             and steps[0].raw_query is None):
         out.append(findings.record('not-single-fetch', '+'.join(type(s).__name__ for s in steps)[:120], tags, cfg,
                                    f'integrations={[getattr(s, "integration", None) for s in steps]}', sql))
@@ -244,6 +270,8 @@ def cases(draw):
     c = draw(model.queries(CFG))
     c['data'] = draw(model.table_data())
     c['catalog'] = draw(st.sampled_from(sorted(CATALOGS)))
+    if draw(st.integers(0, 3)) == 0:
+        c['integration'] = draw(st.sampled_from(OTHER_NAMES))
     return c
 
 
